@@ -3,6 +3,7 @@ import EupsModel.Lemmas.PathAlgSeq
 import EupsModel.Lemmas.PathAlgMulti
 import EupsModel.Lemmas.PathAlgRef
 import EupsModel.Lemmas.PathAct
+import EupsModel.Lemmas.PathActEups
 /-! C12 — path-variable commands obey list algebra.  Property theorems only (helper lemmas live in
 `Lemmas/PathAlg.lean`, the model in `Model/PathAlg.lean`). -/
 namespace EupsModel.C12
@@ -419,6 +420,75 @@ theorem table_unsets_only_own_dir (name var : Str) (h1 : var ≠ Str.ofString "P
   readFilter_other name var h1 h2
 
 end Actions
+
+
+/-! ## the elements already in the list are stored as they are (repair of D123) -/
+
+/-- String level with the weakest hypothesis on the prior value: its elements only have to be non-empty and free of the
+delimiter — they may hold `$` or `${VAR}` text, which is kept as it is (the pinned code re-interpolated the whole list
+when it stored it). -/
+theorem string_level_any_old_elements (c : Nat) (append fwd : Bool) (var v : Str) (oldl : List Str) (env : Env)
+    (hold : ∀ e ∈ oldl, OldPiece c e) (hv : GoodPiece c v)
+    (henv : (env.get var).getD [] = join [c] oldl) :
+    envPrepend append fwd var v [c] env = .ok (env.set var (join [c] (applyL append fwd [v] oldl))) :=
+  envPrepend_lifts_old c append fwd var v oldl env hold hv henv
+
+/-- The pinned code rewrote an element that was already there (and so could produce a duplicate) … -/
+theorem old_element_rewritten_witness_pinned :
+    envPrependPinned false true (Str.ofString "V") (Str.ofString "q") [58]
+        [(Str.ofString "V", Str.ofString "${F}/x:/f/x"), (Str.ofString "F", Str.ofString "/f")]
+      = .ok [(Str.ofString "V", Str.ofString "q:/f/x:/f/x"), (Str.ofString "F", Str.ofString "/f")] := by decide
+
+/-- … the repaired code keeps it. -/
+theorem old_element_kept_example :
+    envPrepend false true (Str.ofString "V") (Str.ofString "q") [58]
+        [(Str.ofString "V", Str.ofString "${F}/x:/f/x"), (Str.ofString "F", Str.ofString "/f")]
+      = .ok [(Str.ofString "V", Str.ofString "q:${F}/x:/f/x"), (Str.ofString "F", Str.ofString "/f")] := by decide
+
+/-- A value with a nested reference (`${F}` whose value is `${B}/n`): the pinned code added it expanded but, in
+unsetup mode, looked for it unexpanded, so it stayed … -/
+theorem nested_reference_not_removed_witness_pinned :
+    envPrependPinned false false (Str.ofString "V") (Str.ofString "${F}/bin") [58]
+        [(Str.ofString "V", Str.ofString "/b/n/bin:a"), (Str.ofString "F", Str.ofString "${B}/n"),
+         (Str.ofString "B", Str.ofString "/b")]
+      = .ok [(Str.ofString "V", Str.ofString "/b/n/bin:a"), (Str.ofString "F", Str.ofString "${B}/n"),
+         (Str.ofString "B", Str.ofString "/b")] := by decide
+
+/-- … the repaired code removes what it added. -/
+theorem nested_reference_removed_example :
+    envPrepend false false (Str.ofString "V") (Str.ofString "${F}/bin") [58]
+        [(Str.ofString "V", Str.ofString "/b/n/bin:a"), (Str.ofString "F", Str.ofString "${B}/n"),
+         (Str.ofString "B", Str.ofString "/b")]
+      = .ok [(Str.ofString "V", Str.ofString "a"), (Str.ofString "F", Str.ofString "${B}/n"),
+         (Str.ofString "B", Str.ofString "/b")] := by decide
+
+/-! ## `${EUPS_PATH[n]}` (`Lemmas/PathActEups.lean`; repair of D122) -/
+section EupsPath
+open EupsModel.PathAct
+
+/-- A subscripted reference to `$EUPS_PATH` anywhere in an argument is replaced by that element of the path (or by
+`${EUPS_PATH}` when the index is past the end) and the text around it stays. -/
+theorem eups_path_subscript (p : ProdInfo) (ep pre ds post : Str) (hpre : 36 ∉ pre) (hpost : 36 ∉ post)
+    (h : AllDigits ds) (hname : 91 ∉ p.name) :
+    expandArg p (some ep) (pre ++ pEUPSPATH ++ ds ++ 93 :: 125 :: post)
+      = pre ++ (split [58] ep).getD (Str.toNat ds) mEUPSPATH ++ post :=
+  expandArg_eups_path p ep pre ds post hpre hpost h hname
+
+/-- The pinned rule made the element the whole argument. -/
+theorem eups_path_subscript_witness_pinned :
+    subEupsPathPinned [Str.ofString "/st", Str.ofString "/o"] (Str.ofString "${EUPS_PATH[0]}/share")
+      = some (Str.ofString "/st") := by decide
+
+/-- With `EUPS_PATH` unset an argument holding such a reference stays exactly as written. -/
+theorem eups_path_unset (p : ProdInfo) (arg : Str) (h : hasEupsPathRef (expandMacros p arg) = true) :
+    expandArg p none arg = arg :=
+  expandArg_unset_ref p arg h
+
+/-- Arguments without `$` are not touched by any step of `Table.expandEupsVariables`. -/
+theorem expand_arg_plain (p : ProdInfo) (ep : Option Str) (s : Str) (h : 36 ∉ s) : expandArg p ep s = s :=
+  expandArg_no_dollar p ep s h
+
+end EupsPath
 
 /-! ## delimiters of several characters, values of several elements (`Lemmas/PathAlgMulti.lean`) -/
 
